@@ -202,10 +202,9 @@ func typeConstraint(field sql.Column) string {
 func enumTuple(e *an.Enum) string {
 	chunks := make([]string, len(e.Members))
 	for i, val := range e.Members {
-		chunks[i] = val.Const.Val().ExactString()
+		chunks[i] = gen.SQLLiteral(val.Const.Val()) // SQL uses single quote
 	}
-	out := fmt.Sprintf("(%s)", strings.Join(chunks, ", "))
-	return strings.ReplaceAll(out, `"`, `'`) // SQL uses single quote
+	return fmt.Sprintf("(%s)", strings.Join(chunks, ", "))
 }
 
 func compositeDecl(cp sql.Composite) string {
